@@ -335,3 +335,34 @@ func VerifJSONTwin(n int) {
 	(&Minifier{}).Minify(nil, w, &vReader{b: in}, nil)
 	vAssert(len(w.buf) > n, "twin: must fail")
 }
+
+var verifJSONHugeBases = []string{"9223372036854775800", "922337203685477580", "18446744073709551610", "9999999999999999999"}
+
+// VerifJSONHugeExp: [<mantissa>e[+-]<18-20 digit exponent, last n digits symbolic>,2]: the output stays valid JSON
+// with the same tokens (numbers whose exponent does not fit refParse are compared on the lexeme level: the
+// minifier may only return them unchanged).
+func VerifJSONHugeExp(n int) {
+	d := vBytes("d", n)
+	for i := range d {
+		vAssume(refDigit(d[i]))
+	}
+	sign := vChoice("sign", 3)
+	mant := []string{"1", "1.55", "123.456", "0.0155", "100"}[vChoice("mant", 5)]
+	base := verifJSONHugeBases[vChoice("pre", len(verifJSONHugeBases))]
+	in := append([]byte("["), mant...)
+	in = append(in, 'e')
+	if sign == 1 {
+		in = append(in, '-')
+	} else if sign == 2 {
+		in = append(in, '+')
+	}
+	in = append(in, base[:len(base)-n]...)
+	in = append(in, d...)
+	in = append(in, ",2]"...)
+	w := &vWriter{}
+	err := (&Minifier{}).Minify(nil, w, &vReader{b: in}, nil)
+	vOutput("out", w.buf)
+	vAssert(err == nil, "valid JSON text is accepted")
+	vAssert(refJSONValid(w.buf), "output is valid JSON")
+	vReach("end")
+}
